@@ -168,7 +168,9 @@ void World::exec_op(const Op &op) {
 		else if (how == "rst") { cl->rx_err = ECONNRESET; }
 		else { cl->hup = true; cl->eof = true; }
 		cl->wr_fail_after_close = how != "fin" && plan.hdr.getb("epipe");
-		if (how != "fin") { cl->faulty = true; cl->expq.clear(); } // the client cannot observe anything any more
+		// a peer that is gone answers the next segment with a reset: the first few writes are still accepted, later ones fail with EPIPE
+		if (op.a.has("epipe_after")) { cl->wr_fail_after_close = true; cl->wr_ok_left = (int)op.a.geti("epipe_after", 0); }
+		if (how != "fin" || op.a.has("epipe_after")) { cl->faulty = true; cl->expq.clear(); } // the client cannot observe anything any more
 		probe("client_close:" + how);
 		if (cl->accepted) { KFd *kk = g_kernel.get(cl->fd); if (kk) g_kernel.mark_pending(*kk); }
 		return;
